@@ -107,6 +107,10 @@ pub struct RunResult {
 
 pub type Body = Box<dyn FnOnce() + Send + 'static>;
 
+/// A managed thread that neither parks nor finishes within this many seconds of wall-clock time makes the
+/// run `Stuck`.  Generous on purpose: a loaded or briefly stalled machine must not look like a livelock.
+const STUCK_SECS: u64 = 60;
+
 /// Run `bodies` as managed threads under `schedule`.  `observe` is called by the controller
 /// after every step (all managed threads parked or finished) with the site at which each thread
 /// is parked ("end" when finished); what it returns is merged into the `step` event.  `log_steps = false` suppresses the per-step events (only thread events).
@@ -166,7 +170,7 @@ pub fn run(
     loop {
         // wait until every managed thread is parked or finished
         let mut g = c.m.lock().unwrap();
-        let deadline = Instant::now() + Duration::from_secs(10);
+        let deadline = Instant::now() + Duration::from_secs(STUCK_SECS);
         while !quiescent(&g) {
             let now = Instant::now();
             if now >= deadline {
@@ -205,7 +209,7 @@ pub fn run(
         g.token = Some(t);
         c.cv.notify_all();
         // wait for the step to end
-        let deadline = Instant::now() + Duration::from_secs(10);
+        let deadline = Instant::now() + Duration::from_secs(STUCK_SECS);
         while !quiescent(&g) {
             let now = Instant::now();
             if now >= deadline {
